@@ -1,17 +1,408 @@
 //go:build verif
 
+// verif_c05: hostile byte streams through the real StreamProcessor.ReadPacket (watchdog + allocation
+// measurement) and every decoded packet through the real SessionManager.HandlePacket on a fresh
+// connection of a fully wired server fixture (inside recover()).
 package main
 
 import (
+	"bytes"
+	"compress/gzip"
 	"context"
+	"encoding/binary"
+	"encoding/json"
 	"fmt"
+	"io"
+	"net"
+	"os"
+	"runtime"
+	"runtime/debug"
+	"strings"
+	"sync/atomic"
+	"time"
 
 	"tunnox-core/internal/app/server"
+	"tunnox-core/internal/constants"
 	"tunnox-core/internal/core/storage/memory"
+	"tunnox-core/internal/core/types"
+	"tunnox-core/internal/packet"
+	"tunnox-core/internal/stream"
 )
 
+type chunkReader struct {
+	data []byte
+	cuts []int
+}
+
+func (c *chunkReader) Read(p []byte) (int, error) {
+	if len(p) == 0 {
+		return 0, nil
+	}
+	if len(c.data) == 0 {
+		return 0, io.EOF
+	}
+	k := len(c.data)
+	if len(c.cuts) > 0 {
+		k = c.cuts[0]
+		if k < 1 {
+			k = 1
+		}
+		c.cuts = c.cuts[1:]
+	}
+	if k > len(p) {
+		k = len(p)
+	}
+	if k > len(c.data) {
+		k = len(c.data)
+	}
+	copy(p, c.data[:k])
+	c.data = c.data[k:]
+	return k, nil
+}
+
+// fake transport for fresh connections: reads block until closed, writes are swallowed
+type fakeConn struct {
+	ip     string
+	closed chan struct{}
+	wrote  int64
+}
+
+func newFakeConn(ip string) *fakeConn { return &fakeConn{ip: ip, closed: make(chan struct{})} }
+func (f *fakeConn) Read(p []byte) (int, error) {
+	<-f.closed
+	return 0, io.EOF
+}
+func (f *fakeConn) Write(p []byte) (int, error) { atomic.AddInt64(&f.wrote, int64(len(p))); return len(p), nil }
+func (f *fakeConn) Close() error {
+	select {
+	case <-f.closed:
+	default:
+		close(f.closed)
+	}
+	return nil
+}
+func (f *fakeConn) LocalAddr() net.Addr  { return &net.TCPAddr{IP: net.ParseIP("127.0.0.1"), Port: 7000} }
+func (f *fakeConn) RemoteAddr() net.Addr { return &net.TCPAddr{IP: net.ParseIP(f.ip), Port: 40000} }
+func (f *fakeConn) SetDeadline(time.Time) error      { return nil }
+func (f *fakeConn) SetReadDeadline(time.Time) error  { return nil }
+func (f *fakeConn) SetWriteDeadline(time.Time) error { return nil }
+
+type caseIn struct {
+	Mode string `json:"mode"` // stream | bomb | dispatch
+	Wire string `json:"wire"`
+	Cuts []int  `json:"cuts"`
+	// bomb: a single compressed packet whose body inflates to Inflated bytes of Fill
+	Ty       int `json:"ty"`
+	Inflated int `json:"inflated"`
+	// dispatch: one packet handed directly to HandlePacket
+	Payload string                `json:"payload"`
+	Cmd     *packet.CommandPacket `json:"cmd,omitempty"`
+	NoDispatch bool `json:"no_dispatch"`
+}
+type obs struct {
+	Ok   bool   `json:"ok"`
+	Ty   int    `json:"ty"`
+	Body string `json:"body"`
+	N    int    `json:"n"`
+	Err  string `json:"err,omitempty"`
+}
+type caseOut struct {
+	Wire       string          `json:"wire"`
+	WireLen    int             `json:"wire_len"`
+	Obs        []obs           `json:"obs"`
+	Infl       [][]interface{} `json:"infl"`
+	Json       [][]interface{} `json:"json"`
+	MaxPayload int             `json:"max_payload"`
+	AllocBytes uint64          `json:"alloc_bytes"`
+	Panicked   string          `json:"panicked"`
+	TimedOut   bool            `json:"timed_out"`
+	Dispatched int             `json:"dispatched"`
+	DispErr    []bool          `json:"disp_err"`
+	PropOK     bool            `json:"prop_ok"`
+	PropMsg    string          `json:"prop_msg"`
+}
+
+var fx *server.VerifFixture
+var connSeq int
+
+func freshDispatch(tp *packet.TransferPacket, out *caseOut) {
+	connSeq++
+	ip := fmt.Sprintf("198.51.%d.%d", (connSeq/250)%250, connSeq%250+1)
+	fc := newFakeConn(ip)
+	defer fc.Close()
+	done := make(chan string, 1)
+	var herr error
+	go func() {
+		defer func() {
+			if r := recover(); r != nil {
+				done <- fmt.Sprintf("panic: %v\n%s", r, string(debug.Stack()))
+			}
+		}()
+		conn, err := fx.Session.CreateConnection(fc, fc)
+		if err != nil {
+			herr = err
+			done <- ""
+			return
+		}
+		herr = fx.Session.HandlePacket(&types.StreamPacket{ConnectionID: conn.ID, Packet: tp, Timestamp: time.Now()})
+		_ = fx.Session.CloseConnection(conn.ID)
+		done <- ""
+	}()
+	select {
+	case p := <-done:
+		if p != "" && out.Panicked == "" {
+			out.Panicked = fmt.Sprintf("HandlePacket(type %#x): %s", byte(tp.PacketType), firstLines(p, 12))
+		}
+	case <-time.After(15 * time.Second):
+		out.TimedOut = true
+		out.PropMsg = fmt.Sprintf("HandlePacket(type %#x) did not return within 15s", byte(tp.PacketType))
+	}
+	out.Dispatched++
+	out.DispErr = append(out.DispErr, herr != nil)
+}
+
+func firstLines(s string, n int) string {
+	ls := strings.Split(s, "\n")
+	if len(ls) > n {
+		ls = ls[:n]
+	}
+	return strings.Join(ls, "\n")
+}
+
+func isJSONType(t byte) bool { return packet.Type(t).IsJsonCommand() || packet.Type(t).IsCommandResp() }
+
+// independent walk of the wire format, only to build the oracle tables the model needs
+func tables(wire []byte, out *caseOut) {
+	seenI := map[string]bool{}
+	seenJ := map[string]bool{}
+	s := wire
+	for len(s) > 0 {
+		ty := s[0]
+		s = s[1:]
+		if ty&0x3F == 3 {
+			continue
+		}
+		if len(s) < 4 {
+			return
+		}
+		n := binary.BigEndian.Uint32(s[:4])
+		s = s[4:]
+		if n > uint32(constants.MaxPacketBodySize) || uint32(len(s)) < n {
+			return
+		}
+		body := s[:n]
+		s = s[n:]
+		if ty&0x80 != 0 {
+			return
+		}
+		raw := body
+		if ty&0x40 != 0 {
+			k := hx(body)
+			var res interface{}
+			zr, err := gzip.NewReader(bytes.NewReader(body))
+			var dec []byte
+			if err == nil {
+				dec, err = io.ReadAll(io.LimitReader(zr, int64(constants.MaxPacketBodySize)+1))
+			}
+			if err == nil && len(dec) > constants.MaxPacketBodySize {
+				err = fmt.Errorf("too large")
+			}
+			if err == nil && len(dec) > 4096 {
+				err = fmt.Errorf("not echoed") // large results are not pushed through the model; see big flag
+			}
+			if err == nil {
+				res = hx(dec)
+				raw = dec
+			}
+			if !seenI[k] {
+				seenI[k] = true
+				out.Infl = append(out.Infl, []interface{}{k, res})
+			}
+			if err != nil {
+				return
+			}
+		}
+		if isJSONType(ty) {
+			var cp packet.CommandPacket
+			ok := json.Unmarshal(raw, &cp) == nil
+			k := hx(raw)
+			if !seenJ[k] {
+				seenJ[k] = true
+				var norm interface{}
+				if ok {
+					nb, _ := json.Marshal(&cp)
+					norm = hx(nb)
+				}
+				out.Json = append(out.Json, []interface{}{k, norm})
+			}
+			if !ok {
+				return
+			}
+		}
+	}
+}
+
+func runStream(wire []byte, cuts []int, echo bool, dispatch bool, out *caseOut) {
+	type result struct {
+		obs  []obs
+		pkts []*packet.TransferPacket
+		pan  string
+	}
+	done := make(chan result, 1)
+	runtime.GC()
+	var m0, m1 runtime.MemStats
+	runtime.ReadMemStats(&m0)
+	go func() {
+		var res result
+		defer func() {
+			if r := recover(); r != nil {
+				res.pan = fmt.Sprintf("panic: %v\n%s", r, string(debug.Stack()))
+			}
+			done <- res
+		}()
+		r := &chunkReader{data: wire, cuts: append([]int(nil), cuts...)}
+		sp := stream.NewStreamProcessor(r, io.Discard, context.Background())
+		defer sp.Close()
+		for i := 0; i < len(wire)+2; i++ {
+			p, n, err := sp.ReadPacket()
+			if err != nil {
+				res.obs = append(res.obs, obs{Ok: false, N: n, Err: err.Error()})
+				return
+			}
+			o := obs{Ok: true, Ty: int(p.PacketType), N: n}
+			pl := len(p.Payload)
+			if p.CommandPacket != nil {
+				b, _ := json.Marshal(p.CommandPacket)
+				o.Body = hx(b)
+			} else if echo && pl <= 4096 {
+				o.Body = hx(p.Payload)
+			}
+			if pl > out.MaxPayload {
+				out.MaxPayload = pl
+			}
+			res.obs = append(res.obs, o)
+			res.pkts = append(res.pkts, p)
+		}
+		res.obs = append(res.obs, obs{Ok: false, N: -1, Err: "harness: reader did not stop"})
+	}()
+	var res result
+	select {
+	case res = <-done:
+	case <-time.After(20 * time.Second):
+		out.TimedOut = true
+		out.PropMsg = "ReadPacket loop did not finish a finite stream within 20s (spin or block)"
+		return
+	}
+	runtime.ReadMemStats(&m1)
+	out.AllocBytes = m1.TotalAlloc - m0.TotalAlloc
+	out.Obs = res.obs
+	if res.pan != "" {
+		out.Panicked = "ReadPacket: " + firstLines(res.pan, 12)
+	}
+	if dispatch {
+		for _, p := range res.pkts {
+			freshDispatch(p, out)
+		}
+	}
+}
+
+func runCase(raw json.RawMessage) interface{} {
+	var c caseIn
+	must(json.Unmarshal(raw, &c))
+	out := &caseOut{PropOK: true}
+	switch c.Mode {
+	case "stream":
+		wire := unhx(c.Wire)
+		runStream(wire, c.Cuts, true, !c.NoDispatch, out)
+		out.Wire = hx(wire)
+		out.WireLen = len(wire)
+		tables(wire, out)
+	case "bomb":
+		var zb bytes.Buffer
+		zw, _ := gzip.NewWriterLevel(&zb, gzip.BestCompression)
+		chunk := make([]byte, 1<<20)
+		left := c.Inflated
+		for left > 0 {
+			k := len(chunk)
+			if k > left {
+				k = left
+			}
+			zw.Write(chunk[:k])
+			left -= k
+		}
+		zw.Close()
+		wire := []byte{byte(c.Ty)}
+		var l [4]byte
+		binary.BigEndian.PutUint32(l[:], uint32(zb.Len()))
+		wire = append(wire, l[:]...)
+		wire = append(wire, zb.Bytes()...)
+		// follow with a small valid packet to observe alignment after the bomb
+		wire = append(wire, 0x20, 0, 0, 0, 2, 0x41, 0x42)
+		runStream(wire, c.Cuts, false, false, out)
+		out.WireLen = len(wire)
+	case "dispatch":
+		tp := &packet.TransferPacket{PacketType: packet.Type(c.Ty), Payload: unhx(c.Payload), CommandPacket: c.Cmd}
+		freshDispatch(tp, out)
+	default:
+		panic("bad mode")
+	}
+	// the property predicate on the implementation's own outputs
+	limit := uint64(constants.MaxPacketBodySize)
+	switch {
+	case out.Panicked != "":
+		out.PropOK, out.PropMsg = false, out.Panicked
+	case out.TimedOut:
+		out.PropOK = false
+	case uint64(out.MaxPayload) > limit:
+		out.PropOK, out.PropMsg = false, fmt.Sprintf("decoded payload of %d bytes exceeds MaxPacketBodySize %d", out.MaxPayload, limit)
+	case out.AllocBytes > 6*limit+(8<<20):
+		out.PropOK, out.PropMsg = false, fmt.Sprintf("decoding a %d-byte stream allocated %d bytes (bound 6*MaxPacketBodySize+8MiB)", out.WireLen, out.AllocBytes)
+	}
+	return out
+}
+
+func gen() {
+	fmt.Println("(* generated by verif_c05 gen from /repo's working tree — do not edit *)")
+	fmt.Println("From Coq Require Import NArith List. Import ListNotations. Open Scope N_scope.")
+	fmt.Printf("Definition MaxPacketBodySize : N := %d.\n", constants.MaxPacketBodySize)
+	// for every type byte: does the real dispatcher answer "unhandled packet type" on a fresh connection?
+	fmt.Println("Definition unhandled_table : list bool := [")
+	for i := 0; i < 256; i++ {
+		out := &caseOut{}
+		connSeq++
+		fc := newFakeConn(fmt.Sprintf("203.0.113.%d", i%250+1))
+		conn, err := fx.Session.CreateConnection(fc, fc)
+		must(err)
+		var herr error
+		func() {
+			defer func() { recover() }()
+			herr = fx.Session.HandlePacket(&types.StreamPacket{ConnectionID: conn.ID,
+				Packet: &packet.TransferPacket{PacketType: packet.Type(byte(i)), Payload: []byte("{}")}, Timestamp: time.Now()})
+		}()
+		_ = fx.Session.CloseConnection(conn.ID)
+		fc.Close()
+		_ = out
+		un := herr != nil && strings.Contains(herr.Error(), "unhandled packet type")
+		sep := ";"
+		if i == 255 {
+			sep = ""
+		}
+		if un {
+			fmt.Printf(" true%s\n", sep)
+		} else {
+			fmt.Printf(" false%s\n", sep)
+		}
+	}
+	fmt.Println("].")
+}
+
 func main() {
-	st := memory.New(context.Background())
-	f, err := server.VerifNewFixture(context.Background(), st, server.VerifFixtureOptions{})
-	fmt.Println(f != nil, err)
+	var err error
+	fx, err = server.VerifNewFixture(context.Background(), memory.New(context.Background()), server.VerifFixtureOptions{})
+	must(err)
+	if len(os.Args) > 1 && os.Args[1] == "gen" {
+		gen()
+		return
+	}
+	forEachCase(runCase)
 }
